@@ -6,12 +6,14 @@ package main
 // op:  [nlayers, (kind intervenes sticky)*, 0, acts...]   kinds 0 stream 1 trace 2 connlimit 3 ratelimit 4 cbreaker
 //      5 roundrobin 6 rebalancer 7 buffer; acts: 0 k v (header X-H-k: v) | 1 code | 2 len b.. (write) | 3 flush | 4 hijack
 // obs: [hijacked, status, handler invocations, body length, body hash, number and hash of handler headers delivered,
-//       Set-Cookie present]
+//       Set-Cookie present, Flush calls that reached the connection's writer]
+// A trace layer whose third field is set writes its records to a sink that fails (full disk, closed pipe).
 // Monitor C20: passive stack => handler invoked once and the client sees what it sees from the bare handler (plus the
 // documented cookie), Flusher available unless the buffer is in the stack, Hijacker available; one intervening layer
 // => its documented status and the handler is not invoked.
 
 import (
+	"bufio"
 	"bytes"
 	"fmt"
 	"io"
@@ -187,7 +189,7 @@ func scripted(acts []act, p *probe) http.Handler {
 			case 1:
 				w.WriteHeader(int(a.a))
 			case 2:
-				_, _ = w.Write(a.data)
+				hlib.WriteVia(w, a.data, len(a.data))
 			case 3:
 				if f, ok := w.(http.Flusher); ok {
 					f.Flush()
@@ -230,7 +232,11 @@ func buildStack(layers []layerSpec, inner http.Handler) (http.Handler, error) {
 			}
 			h = s
 		case 1:
-			t, err := trace.New(next, io.Discard)
+			var sink io.Writer = io.Discard
+			if l.sticky != 0 {
+				sink = failingSink{}
+			}
+			t, err := trace.New(next, sink)
 			if err != nil {
 				return nil, err
 			}
@@ -315,6 +321,38 @@ func buildStack(layers []layerSpec, inner http.Handler) (http.Handler, error) {
 		}
 	}
 	return h, nil
+}
+
+type failingSink struct{}
+
+func (failingSink) Write(p []byte) (int, error) { return 0, fmt.Errorf("no space left on device") }
+
+// connRec stands for the connection's own writer: it counts the Flush calls that reach it.
+type connRec struct {
+	http.ResponseWriter
+	flushes *int32
+}
+
+func (c connRec) Flush() {
+	atomic.AddInt32(c.flushes, 1)
+	c.ResponseWriter.(http.Flusher).Flush()
+}
+
+type connRecH struct{ connRec }
+
+func (c connRecH) Hijack() (net.Conn, *bufio.ReadWriter, error) {
+	return c.ResponseWriter.(http.Hijacker).Hijack()
+}
+
+func recording(h http.Handler, flushes *int32) http.Handler {
+	return http.HandlerFunc(func(w http.ResponseWriter, r *http.Request) {
+		c := connRec{w, flushes}
+		if _, ok := w.(http.Hijacker); ok {
+			h.ServeHTTP(connRecH{c}, r)
+			return
+		}
+		h.ServeHTTP(c, r)
+	})
 }
 
 type result struct {
@@ -460,9 +498,10 @@ func (c *stackComp) Run(h *hlib.History) ([]hlib.Mon, bool) {
 		if err != nil {
 			return nil, false
 		}
-		r := exchange(top, proto)
+		var flushes int32
+		r := exchange(recording(top, &flushes), proto)
 		inv := int64(atomic.LoadInt32(&p.invocations))
-		h.Obs = append(h.Obs, []int64{r.hijacked, r.status, inv, r.bodyLen, r.bodyHash, r.nh, r.hh, r.cookie})
+		h.Obs = append(h.Obs, []int64{r.hijacked, r.status, inv, r.bodyLen, r.bodyHash, r.nh, r.hh, r.cookie, int64(atomic.LoadInt32(&flushes))})
 		add := func(format string, a ...interface{}) {
 			mons = append(mons, hlib.Mon{Prop: "C20", Step: step, Msg: fmt.Sprintf("stack %s: ", describeLayers(layers)) + fmt.Sprintf(format, a...)})
 		}
@@ -497,7 +536,8 @@ func (c *stackComp) Run(h *hlib.History) ([]hlib.Mon, bool) {
 		}
 		// passive: compare with the bare handler
 		p0 := &probe{}
-		r0 := exchange(scripted(acts, p0), proto)
+		var flushes0 int32
+		r0 := exchange(recording(scripted(acts, p0), &flushes0), proto)
 		if inv != 1 {
 			add("no layer intervenes but the handler was invoked %d time(s)", inv)
 		}
@@ -510,6 +550,9 @@ func (c *stackComp) Run(h *hlib.History) ([]hlib.Mon, bool) {
 		}
 		if !hasBuffer && atomic.LoadInt32(&p.flusher) == 0 {
 			add("the writer handed to the handler does not implement http.Flusher although no buffer is in the stack")
+		}
+		if f, f0 := atomic.LoadInt32(&flushes), atomic.LoadInt32(&flushes0); !hasBuffer && f != f0 {
+			add("%d of the handler's Flush calls reached the connection's writer, %d reach it from the bare handler: streaming flush is not kept available", f, f0)
 		}
 		if r.hijacked == 0 && (r.cookie == 1) != hasSticky {
 			add("Set-Cookie present=%d but sticky balancer in stack=%v", r.cookie, hasSticky)
@@ -524,6 +567,9 @@ func describeLayers(layers []layerSpec) string {
 		x := kindNames[l.kind]
 		if l.sticky != 0 && (l.kind == 5 || l.kind == 6) {
 			x += "+sticky"
+		}
+		if l.sticky != 0 && l.kind == 1 {
+			x += "(failing sink)"
 		}
 		if l.intervenes != 0 {
 			x += "!"
